@@ -13,6 +13,7 @@ import (
 	"encoding/base64"
 	"encoding/json"
 	"fmt"
+	"math/big"
 	"sort"
 	"strconv"
 	"testing"
@@ -29,7 +30,7 @@ import (
 )
 
 type kase struct {
-	Tokens    []int64             `json:"tokens"`
+	Tokens    []*big.Int          `json:"tokens"` // math.Int amounts: may exceed 2^63
 	MaxVals   uint32              `json:"max_vals"`
 	M         int64               `json:"M"`
 	Consumers [][]json.RawMessage `json:"consumers"` // initial power-shaping settings (top_n is 0 at creation)
@@ -37,7 +38,8 @@ type kase struct {
 }
 
 type cfg struct {
-	topN, setCap, powerCap, minStake int64
+	topN, setCap, powerCap int64
+	minStake               *big.Int // uint64 in the message: values up to 2^64-1
 	allowInactive                    bool
 	allow, deny, prio                []int64
 }
@@ -53,6 +55,14 @@ type drv struct {
 func num(raw json.RawMessage) int64 {
 	var x int64
 	if err := json.Unmarshal(raw, &x); err != nil {
+		panic(err)
+	}
+	return x
+}
+
+func bigOf(raw json.RawMessage) *big.Int {
+	x := new(big.Int)
+	if err := json.Unmarshal(raw, x); err != nil {
 		panic(err)
 	}
 	return x
@@ -84,13 +94,13 @@ func (d *drv) consAddrStr(id int64) string {
 }
 
 func parseCfg(a []json.RawMessage) cfg {
-	return cfg{topN: num(a[0]), setCap: num(a[1]), powerCap: num(a[2]), minStake: num(a[3]), allowInactive: num(a[4]) != 0,
+	return cfg{topN: num(a[0]), setCap: num(a[1]), powerCap: num(a[2]), minStake: bigOf(a[3]), allowInactive: num(a[4]) != 0,
 		allow: ints(a[5]), deny: ints(a[6]), prio: ints(a[7])}
 }
 
 func (d *drv) shaping(g cfg) *providertypes.PowerShapingParameters {
 	ps := &providertypes.PowerShapingParameters{Top_N: uint32(g.topN), ValidatorSetCap: uint32(g.setCap),
-		ValidatorsPowerCap: uint32(g.powerCap), MinStake: uint64(g.minStake), AllowInactiveVals: g.allowInactive}
+		ValidatorsPowerCap: uint32(g.powerCap), MinStake: g.minStake.Uint64(), AllowInactiveVals: g.allowInactive}
 	for _, id := range g.allow {
 		ps.Allowlist = append(ps.Allowlist, d.consAddrStr(id))
 	}
@@ -128,7 +138,7 @@ func (d *drv) oracle() (common.T, []stakingtypes.Validator, int64) {
 	var prev *common.Val
 	for i, sv := range vals {
 		v := d.w.Vals[d.idxOfOper(sv.GetOperator())]
-		out[i] = common.L(int64(v.Idx), v.Tokens.Int64(), v.LastPower, int64(1000+v.Idx), common.B(v.Jailed))
+		out[i] = common.L(int64(v.Idx), v.Tokens.BigInt(), v.LastPower, int64(1000+v.Idx), common.B(v.Jailed))
 		if v.Jailed || v.Status != stakingtypes.Bonded || v.Removed || v.Power() <= 0 || !sv.GetBondedTokens().Equal(v.Tokens) {
 			hyp = 0
 		}
@@ -237,7 +247,7 @@ func TestDriver(t *testing.T) {
 func runHistory(t *testing.T, k kase) (common.T, common.T) {
 	w := common.NewWorld(0)
 	for _, tk := range k.Tokens {
-		w.AddVal(tk)
+		w.AddVal(0).Tokens = math.NewIntFromBigInt(tk)
 	}
 	if k.MaxVals > 0 {
 		w.MaxVals = k.MaxVals
@@ -372,7 +382,7 @@ func runHistory(t *testing.T, k kase) (common.T, common.T) {
 		case 20: // staking: tokens of validator v (refused if no bonded validator would be left: the chain would have halted)
 			v := w.Vals[num(o[1])]
 			old := v.Tokens
-			v.Tokens = math.NewInt(num(o[2]))
+			v.Tokens = math.NewIntFromBigInt(bigOf(o[2]))
 			if !d.someBonded() {
 				v.Tokens = old
 			}
